@@ -650,7 +650,7 @@ def writer_block(case, res):
         nwrites = 0
         # boom: None = normal exit, 'exc' = an exception raised inside the with-block, int k = the k-th write fails
         # with ENOSPC (full disk) and the error leaves the with-block
-        plans = [None, 'exc']
+        plans = [None, 'exc', 'fsync']        # 'fsync': the destination is not a regular file, fsync (if the writer syncs) is refused
         pi = 0
         while pi < len(plans):
             boom = plans[pi]
@@ -659,8 +659,10 @@ def writer_block(case, res):
             with store(record=False) as st:
                 if isinstance(boom, int):
                     st.fs.fail_writes = {boom}
-                if isinstance(boom, tuple):
+                if isinstance(boom, tuple) and boom[0] == 'open':
                     st.fs.fail_opens = {boom[1]}
+                if boom == 'fsync':
+                    st.fs.fail_fsync = True
                 nptdms = lib.nptdms
                 if sink == 'simpath':
                     target, idx = SIM_ROOT + 'o.tdms', True
@@ -689,11 +691,11 @@ def writer_block(case, res):
                     nwrites = st.fs.write_events
                     plans += list(range(nwrites))
                     plans += [('open', k) for k in range(st.fs.open_events)]
-                if isinstance(boom, tuple) and raised:
+                if isinstance(boom, tuple) and boom[0] == 'open' and raised:
                     res.probe('writer-open-fails')
                     res.fault('open-fails')
                 vs = judge(st, res, 'TdmsWriter with-block (%s)%s' % (sink, '' if boom is None else (
-                    ' left by an exception' if boom == 'exc' else (' with open() call %d failing' % boom[1] if isinstance(boom, tuple)
+                    ' left by an exception' if boom == 'exc' else (' with fsync refused' if boom == 'fsync' else ' with open() call %d failing' % boom[1] if isinstance(boom, tuple)
                                                                   else ' with ENOSPC at write %d' % boom))))
                 for v in vs:
                     v.sig.update(phase='writer', kind=sink)
